@@ -12,7 +12,7 @@ from coqrun import z, zlist, pairs  # noqa: E402
 
 PID = "C14"
 TARGETS = ["Properties/C14.vo"]
-MODEL_TARGETS = ["Model/Session.vo", "Model/ExprEnc.vo", "Proofs/C11_Hyps.vo", "Lib/Enc.vo"]
+MODEL_TARGETS = ["Model/Session.vo", "Model/ExprEnc.vo", "Proofs/C11_Hyps.vo", "Lib/Enc.vo", "Model/Format.vo"]
 ASSUMPTIONS = [
     "PARTIAL: 'no command line makes the shell raise or hang' is decided by the survival oracle (all commands, "
     "abbreviations, wrong operand counts and arbitrary text in start / middle / finished / pc-outside states) and "
@@ -221,6 +221,65 @@ def known_replays(ctx, findings):
     return out
 
 
+FORMAT_HEADER = """From Coq Require Import ZArith List.
+From Hera.Model Require Import Format.
+Import ListNotations.
+Open Scope Z_scope.
+Definition enc_fmt (o : option (list Z)) : list Z := match o with Some t => 1 :: t | None => [0] end.
+"""
+
+
+def format_correspondence(rng, n, disagreements, spec_failures, model_available):
+    """hera.utils.format_int (what print, info, print_reg and the end-of-run register dump show) against Model/Format.v
+    on sampled 16-bit values x specifier strings, and, on the real function alone, every numeric form read back with
+    Python's int(text, 0)."""
+    from hera.utils import format_int
+    st = {"format_cases": 0, "format_agree": 0, "format_values_read_back": 0}
+    edge = [0, 1, 9, 10, 13, 31, 32, 39, 65, 92, 126, 127, 128, 255, 256, 4095, 4096, 32767, 32768, 32769, 65535, 9999, 10000]
+    specs = ["xdsc", "d", "x", "o", "b", "c", "C", "s", "S", "dxobcCsS", "sd", "cs", "", "q", "dq", "xX"]
+    cases = []
+    for _ in range(n):
+        v = rng.choice(edge) if rng.random() < 0.4 else rng.randrange(65536)
+        spec = rng.choice(specs) if rng.random() < 0.7 else "".join(rng.choice("dxobcCsS") for _ in range(rng.randrange(1, 6)))
+        try:
+            want = [1] + [ord(c) for c in format_int(v, spec=spec)]
+        except RuntimeError:
+            want = [0]
+        except Exception as e:  # noqa
+            spec_failures.append({"what": "format_int(%d, spec=%r) raised %s" % (v, spec, type(e).__name__)})
+            continue
+        cases.append((v, spec, want))
+    for v in edge + [rng.randrange(65536) for _ in range(n)]:
+        # the implementation alone: what is shown denotes the value
+        try:
+            forms = {c: format_int(v, spec=c) for c in "dxob"}
+            signed = format_int(v, spec="s")
+            bad = [c for c, t in forms.items() if int(t, 0) != v]
+            if (signed != "") != (v >= 32768) or (signed and int(signed, 0) != v - 65536):
+                bad.append("s")
+            if format_int(v, spec="xdsc").split(" = ")[:2] != [forms["x"], forms["d"]]:
+                bad.append("xdsc")
+        except Exception as e:  # noqa
+            bad = [type(e).__name__]
+        if bad:
+            spec_failures.append({"what": "the value %d is shown as %r (specifier(s) %s): that does not read back to the value"
+                                          % (v, format_int(v, spec="dxobsc") if not bad[0][0].isupper() else "?", ",".join(bad))})
+            break
+        st["format_values_read_back"] += 1
+    st["format_cases"] = len(cases)
+    if model_available and cases:
+        outs = coqrun.eval_cases("C14f", FORMAT_HEADER, ["enc_fmt (format_int %d %s)" % (v, coqrun.zlist([ord(c) for c in spec]))
+                                                       for v, spec, _ in cases], shard=300)
+        for (v, spec, want), o in zip(cases, outs):
+            if o == want:
+                st["format_agree"] += 1
+            else:
+                disagreements.append({"what": "format_int vs Model/Format", "value": v, "spec": spec,
+                                      "impl": "".join(map(chr, want[1:])) if want[0] else "RuntimeError",
+                                      "model": "".join(map(chr, o[1:])) if o and o[0] else "None"})
+    return st
+
+
 def correspondence(ctx, model_available=True):
     quick = ctx.tier == "quick"
     rng = ctx.rng
@@ -270,18 +329,21 @@ def correspondence(ctx, model_available=True):
                 model_eval_agree += 1
             else:
                 disagreements.append({"what": "model eval gives %r, implementation %r" % (got, want), "term": t[:300]})
+    # (5) what is shown: format_int vs Model/Format, and the shown forms read back on the real function
+    fm = format_correspondence(rng, 400 if quick else 6000, disagreements, spec_failures, model_available)
     return {
-        "cases": res["sessions"] + sv["lines"] + pres["cases"] + ev["parse_checked"],
+        "cases": res["sessions"] + sv["lines"] + pres["cases"] + ev["parse_checked"] + fm["format_cases"],
         "nontrivial": sv["finished_state_lines"] + ev["values"] + ev["errors"],
         "rule": "(1) sessions over every command kind: real Shell vs Model/Session; (2) survival: random command lines "
                 "(every command and abbreviation x argument pool, garbage text, pc assignments outside the program) in "
                 "start/middle/finished/outside states, each under a time budget; (3) Model/MiniParser on the real "
                 "lexer's tokens vs miniparser.parse on well-formed, damaged and arbitrary texts; (4) `print :d` of the "
                 "standard rendering of random trees vs independent integer arithmetic (values and errors), the parsed "
-                "tree vs the generating tree, and the model evaluator on the same trees and state",
+                "tree vs the generating tree, and the model evaluator on the same trees and state; (5) format_int vs Model/Format "
+                "on sampled values x specifier strings, and every numeric form the real function shows read back with int(text, 0)",
         "distribution": {"sessions": res["sessions"], "session_steps": res["steps"], "survival": sv,
                          "parser": {k: v for k, v in pres.items() if k != "disagreements"}, "evaluation": ev,
-                         "model_eval_agree": model_eval_agree},
+                         "model_eval_agree": model_eval_agree, "format": fm},
         "samples": [dp.session_json(sessions[0])] if sessions else [],
         "disagreements": disagreements, "spec_failures": spec_failures[:5],
         "model_vs_impl_agree": res["agree"], "model_available": model_available,
